@@ -215,6 +215,19 @@ CHECKS["C11"] = (
     "DESIGN.md §3 C11",
 )
 
+CHECKS["C17"] = (
+    "exploration",
+    "spy monitor at the wrapper/implementation boundary (the compiled wrapper's __globals__['implementation'] is replaced by a recording spy) compared with inspect.signature of every generated method",
+    "For every generated method of every class of seeded modules (constructor, 3 top-level, 4 scalar and 4 element helpers per "
+    "attribute; init=False attributes, keys, overflow attribute, subclasses): every advertised parameter alone and in (sampled) pairs "
+    "must be accepted and reach the spy as the very object given; positional-or-keyword parameters also positionally, keyword-only "
+    "ones rejected positionally; omitted real parameters must arrive as the advertised default and no virtual keyword may be invented; "
+    "every unadvertised name must raise TypeError before the implementation is invoked; the nested-attribute keywords must equal the "
+    "init-enabled attributes of the nested spec class per the harness's own declaration.",
+    "Trusted: the spy hook (harness-side monkeypatch of the wrapper's namespace). Defaults shown for virtual keywords are not compared.",
+    "DESIGN.md §3 C17",
+)
+
 NOT_YET = {}
 
 
